@@ -232,9 +232,10 @@ def run_driver(ctx, exe, lines, env, what):
             out = [json.loads(l) for l in vplib.run_lines(exe, lines, env=env, timeout=1200)]
             if len(out) != len(lines):
                 raise RuntimeError("%s: %d results for %d scenarios" % (what, len(out), len(lines)))
-            bad = [o for o in out if o.get("error") and "proxy listener" in str(o.get("error"))]
-            if bad:
-                raise RuntimeError("%s: %s" % (what, bad[0]["error"]))
+            bad = [o for o in out if not o.get("ok")]
+            if bad and attempt < 2:
+                # scenarios are deterministic: a failure that persists is handed to the verdict logic
+                raise RuntimeError("%s: %d scenario(s) not ok, first: %s" % (what, len(bad), bad[0].get("error")))
             return out
         except (RuntimeError, ValueError) as e:
             last = e
